@@ -887,6 +887,10 @@ class Generator:
             k = type(e).__name__
             self.reject_reasons[k] = self.reject_reasons.get(k, 0) + 1
             return None
+        if kind == "frame":
+            # generator exclusion (KF-C10-suffix-projection): the right-hand copy X_y of a suffixed pair is never
+            # *named* by later ops, so no op ever selects both suffixed copies of one column
+            cols = {c: k for c, k in cols.items() if not (isinstance(c, str) and c.endswith("_y") and c[:-2] + "_x" in cols)}
         self.pool[op["id"]] = coll
         srcs = op_srcs(op)
         depth = 1 + max([self.members[s].depth for s in srcs], default=0)
